@@ -91,10 +91,15 @@ class Roles:
         for f in self.funcs:
             for n in own_nodes(f.node):
                 if isinstance(n, ast.Call) and isinstance(n.func, ast.Attribute) and \
-                        n.func.attr in ("popleft", "get", "get_nowait", "pop") and \
+                        n.func.attr in ("popleft", "get", "get_nowait") and \
                         dotted(n.func.value) == "self._event_queue":
                     dr.append(f)
         dr = list({f.qualname: f for f in dr}.values())
+        if len(dr) > 1:
+            # the consumer is the one that dequeues inside a loop; any other remover is C04.R2's subject
+            looped = [f for f in dr if any(isinstance(n, (ast.While, ast.For)) for n in own_nodes(f.node))]
+            if len(looped) == 1:
+                dr = looped
         if len(dr) != 1:
             raise AnalysisError(f"view {view}: drain loop (dequeue from _event_queue) not unique: {[f.short for f in dr]}")
         self.drain = dr[0]
